@@ -2,12 +2,12 @@ SPECIFICATION QSpec
 CONSTANTS
   Readers = {1, 2, 3}
   KeySet = {1, 2}
-  Sizes = {1, 2, 3}
+  Sizes = {1, 3}
   MAX = 2
   PAR = 2
   NCALLS = 1
   FIXED = TRUE
-  ERRS = {FALSE, TRUE}
+  ERRS = {FALSE}
   TTL = TRUE
   CLEAR = FALSE
 INVARIANT QInv
